@@ -11,8 +11,9 @@ Conventions (DESIGN.md §4): Go maps are association lists (`aget`/`aset`, first
 place), nil pointers are `Option`, `bart.Table` / `bart.Lite` are lists of `(Prefix × value)` read only
 through `Nebula.Net.lpm` / `supernets` / `anyContains` (the specification of what nebula asks of bart).
 `firewallPort` (a Go `map[int32]*FirewallCA` that `addRule` fills with a `for i := start; i <= end` loop) is a
-function `Int → Option FCA`; the loop body touches only key `i`, so the loop is the pointwise update
-`FPort.addRule` (the loop's early exit happens only on an unparsable cidr, excluded below).
+function `Int → Option FCA` updated pointwise (`FPort.addRule`); the loop over the map itself is `portLoop` /
+`FPortMap.addRule`, proved equal to the pointwise update in Lemmas/FwPortLoop.lean (the loop's early exit
+happens only on an unparsable cidr, excluded below).
 
 A rule reaches `AddRule` with `cidr` / `localCidr` as strings. `AddFirewallRulesFromConfig` refuses the rule
 before `AddRule` if a non-empty, non-"any" value does not `netip.ParsePrefix`, so here they are already
@@ -223,6 +224,31 @@ def FPort.addRule (cfg : Cfg) (fp : FPort) (startPort endPort : Int) (groups : L
     if startPort ≤ i ∧ i ≤ endPort then
       some (((fp i).getD {}).addRule cfg groups host cidr localCidr caName caSha)
     else fp i
+
+/-! `firewallPort` once more, as the Go map it is: an association list filled by the `for i := startPort; i <=
+endPort; i++` loop. `Lemmas/FwPortLoop.lean` proves that reading it back is `FPort.addRule` (the pointwise update
+used everywhere else), so nothing is lost by the functional view. -/
+
+def sameInt (a b : Int) : Bool := decide (a = b)
+
+abbrev FPortMap := List (Int × FCA)
+
+/-- the loop body for key `i`, then the remaining `n` iterations. -/
+def portLoop (cfg : Cfg) (groups : List String) (host : String) (cidr localCidr : CidrSel) (caName caSha : String) :
+    FPortMap → Int → Nat → FPortMap
+  | m, _, 0 => m
+  | m, i, n + 1 =>
+    -- `if _, ok := fp[i]; !ok { fp[i] = &FirewallCA{…} }` then `fp[i].addRule(…)`
+    let fc := ((aget sameInt m i).getD {}).addRule cfg groups host cidr localCidr caName caSha
+    portLoop cfg groups host cidr localCidr caName caSha (aset sameInt m i fc) (i + 1) n
+
+/-- `firewallPort.addRule` on the map, after its `startPort > endPort` guard. -/
+def FPortMap.addRule (cfg : Cfg) (m : FPortMap) (startPort endPort : Int) (groups : List String) (host : String)
+    (cidr localCidr : CidrSel) (caName caSha : String) : FPortMap :=
+  portLoop cfg groups host cidr localCidr caName caSha m startPort (endPort - startPort + 1).toNat
+
+/-- reading the map: `fp[i]` (nil when absent). -/
+def FPortMap.toFPort (m : FPortMap) : FPort := fun i => aget sameInt m i
 
 def isICMP (proto : Nat) : Bool := proto == Gen.firewall_ProtoICMP || proto == Gen.firewall_ProtoICMPv6
 
